@@ -420,6 +420,13 @@ struct BloomSys {
     const uint8_t* M = s.m(); const size_t MB = s.mbytes();
     BF& G = opnd->G;
     uint64_t hdr; memcpy(&hdr, M + 24, 8);
+    // before any observer below refreshes the stored bit count: a read-only wrap of the memory AS THE OPERATIONS LEFT IT (the count
+    // may be marked dirty) never writes to it, whatever it is asked
+    if (MB >= 32 && pop > 0) {
+      std::vector<uint64_t> m2((MB + 7) / 8); memcpy(m2.data(), M, MB); const std::vector<uint64_t> m0(m2);
+      try { BF v(BF::wrap(m2.data(), MB)); (void)v.get_bits_used(); (void)v.is_empty(); (void)v.serialize(); } catch (const std::exception&) {}
+      c.ok("read-only-wrap-leaves-the-memory-unchanged", memcmp(m0.data(), m2.data(), MB) == 0, "get_bits_used / is_empty / serialize through a read-only wrap changed the wrapped memory (stored count " + std::string(hdr == DIRTY ? "marked dirty" : "clean") + ")");
+    }
     const std::string tag = std::string(pop == 0 ? "empty" : pop == cap ? "full" : "partial") + "|F" + (s.F.is_dirty_ ? "dirty" : "clean") + "|W" + (s.W.is_dirty_ ? "dirty" : "clean")
       + "|hdr" + (hdr == DIRTY ? "dirty" : hdr == pop ? "exact" : "stale") + "|R" + (s.R ? (s.r_ne ? "taken-nonempty" : "taken-empty") : "none");
 
@@ -465,6 +472,12 @@ struct BloomSys {
         }
       }
       c.rep.outcome(stale ? "R:view-taken-while-empty-misses-later-insertions" : "R:agrees");
+      // a read-only view never writes to the memory it was given as const, whatever is asked of it (counting the set bits of a filter
+      // whose stored count is marked dirty included), and a FRESH read-only wrap taken now does not either
+      { std::vector<uint8_t> before((const uint8_t*)M, (const uint8_t*)M + MB);
+        (void)r.get_bits_used(); (void)r.is_empty(); (void)r.serialize();
+        { BF v(BF::wrap(M, MB)); (void)v.get_bits_used(); (void)v.is_empty(); }
+        c.ok("read-only-views-leave-the-memory-unchanged", memcmp(before.data(), M, MB) == 0, "get_bits_used / is_empty / serialize through a read-only wrap changed the wrapped memory"); }
     }
 
     // ---- chain 2: the owned filter F and what is derived from it ----
